@@ -163,6 +163,8 @@ type errItem struct {
 	err       error
 }
 
+func (e errItem) String() string { return fmt.Sprintf("%s/%d:%v", e.topic, e.partition, e.err) }
+
 func sortErrs(e []errItem) {
 	sort.SliceStable(e, func(i, j int) bool {
 		if e[i].topic != e[j].topic {
